@@ -66,7 +66,9 @@ func genC09(seed int64, tier string, emit func(run.Case)) {
 	plain.Special, plain.Boards = .08, .15
 	for i := 0; i < n; i++ {
 		q := r.Sub(i)
-		switch q.Intn(8) {
+		switch q.Intn(9) {
+		case 8:
+			add(c09SpecialProgram(q), "special-fields")
 		case 0, 1:
 			add(gen.Program(q, gen.ProfileLang), "lang")
 		case 2:
@@ -81,7 +83,105 @@ func genC09(seed int64, tier string, emit func(run.Case)) {
 	}
 }
 
+// c09SpecialProgram: sql_table / class shapes with ≥2 fields and connections to their
+// fields from every kind of scope: the root, sibling containers declared before and after
+// the shape, through `_`, nested containers, other tables' columns; plus ordinary content
+// around them. (The fields of such shapes are not objects; connections to them attach to
+// the shape.)
+func c09SpecialProgram(r *gen.R) string {
+	var sb strings.Builder
+	type special struct {
+		name   string
+		fields []string
+	}
+	var specials []special
+	names := []string{"users", "orders", "items", "Repo", "svc", "log"}
+	r.Shuffle(len(names), func(i, j int) { names[i], names[j] = names[j], names[i] })
+	nSpecial := r.Range(1, 3)
+	for i := 0; i < nSpecial; i++ {
+		sp := special{name: names[i]}
+		for j := 0; j < r.Range(2, 5); j++ {
+			sp.fields = append(sp.fields, gen.Pick(r, []string{"id", "name", "user_id", "ts", "total", "kind", "ref"})+fmt.Sprint(j))
+		}
+		specials = append(specials, sp)
+	}
+	others := names[nSpecial:]
+	field := func() string {
+		sp := gen.Pick(r, specials)
+		return sp.name + "." + gen.Pick(r, sp.fields)
+	}
+	container := func(name string) {
+		// a plain container that refers to fields of the special shapes from inside
+		sb.WriteString(name + ": {\n")
+		for k := 0; k < r.Range(1, 4); k++ {
+			inner := gen.Pick(r, []string{"a", "b", "user_id", "fk"})
+			switch r.Intn(5) {
+			case 0:
+				sb.WriteString("  " + inner + "\n")
+			case 1, 2:
+				sb.WriteString("  " + inner + " " + gen.Pick(r, gen.Arrows) + " _." + field() + "\n")
+			case 3:
+				sb.WriteString("  sub: {\n    " + inner + " -> _._." + field() + "\n  }\n")
+			default:
+				sb.WriteString("  _." + field() + " -> " + inner + ": fk\n")
+			}
+		}
+		sb.WriteString("}\n")
+	}
+	emitSpecial := func(sp special) {
+		shape := r.Str("sql_table", "sql_table", "class")
+		sb.WriteString(sp.name + ": {\n  shape: " + shape + "\n")
+		for _, f := range sp.fields {
+			if shape == "class" && r.P(0.3) {
+				sb.WriteString("  " + f + "(): void\n")
+				continue
+			}
+			sb.WriteString("  " + f + ": " + r.Str("int", "string", "uuid"))
+			if shape == "sql_table" && r.P(0.3) {
+				sb.WriteString(" {constraint: " + r.Str("primary_key", "foreign_key", "unique") + "}")
+			}
+			sb.WriteString("\n")
+		}
+		sb.WriteString("}\n")
+	}
+	// containers before, the special shapes, containers after, root-level connections
+	for _, o := range others {
+		if r.P(0.4) {
+			container(o)
+		}
+	}
+	for i, sp := range specials {
+		emitSpecial(sp)
+		if r.P(0.5) {
+			container(fmt.Sprintf("c%d", i))
+		}
+	}
+	for _, o := range others {
+		if r.P(0.6) {
+			container(o + "2")
+		}
+	}
+	for k := 0; k < r.Range(1, 4); k++ {
+		switch r.Intn(3) {
+		case 0:
+			sb.WriteString(field() + " " + gen.Pick(r, gen.Arrows) + " " + field() + "\n")
+		case 1:
+			sb.WriteString(gen.Pick(r, others) + " -> " + field() + "\n")
+		default:
+			sb.WriteString(field() + " -> " + gen.Pick(r, others) + ".x\n")
+		}
+	}
+	if r.P(0.3) {
+		sb.WriteString("layers: {\n  l: {\n")
+		sp := gen.Pick(r, specials)
+		sb.WriteString("    t: {shape: sql_table; " + sp.fields[0] + ": int; " + sp.fields[1] + ": int}\n    late: {k -> _.t." + sp.fields[0] + "}\n  }\n}\n")
+	}
+	return sb.String()
+}
+
 var c09Targeted = []string{
+	"users: {\n  shape: sql_table\n  id: int\n  name: string\n}\norders: {\n  user_id\n  user_id -> _.users.id\n}\n",
+	"k: {\n  shape: class\n  +a: int\n  +b: int\n  m(): void\n}\nlater: {\n  sub: {x -> _._.k.a}\n}\n",
 	"a.b\nc\na.d\n",
 	"layers: {l: {a.b; c; a.d}}\n",
 	"x -> y\na -> b\nx -> y\n",
@@ -167,6 +267,31 @@ func c09CheckBoard(res *run.Result, g *d2graph.Graph, kind string) {
 		}
 	}
 	checkChildren(g.Root)
+	// every object reachable from Root through ChildrenArray is listed in Objects exactly
+	// once, and nothing else is listed
+	reach := 0
+	var walk func(p *d2graph.Object, depth int)
+	walk = func(p *d2graph.Object, depth int) {
+		if depth > len(g.Objects)+2 {
+			return
+		}
+		for _, ch := range p.ChildrenArray {
+			reach++
+			if inObjects[ch] != 1 {
+				viol("tree.reachable-not-listed-once", c09ShapeTrig(p), fmt.Sprintf("object %q is reachable from Root through ChildrenArray but is listed %d times in Objects", ch.AbsID(), inObjects[ch]))
+			}
+			walk(ch, depth+1)
+		}
+	}
+	walk(g.Root, 0)
+	if reach != len(g.Objects) {
+		viol("tree.objects-vs-reachable-count", kind, fmt.Sprintf("%d objects are reachable from Root through ChildrenArray, Objects lists %d", reach, len(g.Objects)))
+	}
+	for _, o := range g.Objects {
+		if o.Parent != nil && (o.Parent.Shape.Value == d2target.ShapeClass || o.Parent.Shape.Value == d2target.ShapeSQLTable) {
+			viol("special.field-listed-as-object", o.Parent.Shape.Value, fmt.Sprintf("%q is listed in Objects although its parent is a %s (its fields are not objects)", o.AbsID(), o.Parent.Shape.Value))
+		}
+	}
 	for _, o := range g.Objects {
 		if o.Graph != g {
 			viol("tree.foreign-graph", c09ShapeTrig(o), fmt.Sprintf("object %s has a Graph pointer of another board", o.AbsID()))
